@@ -14,6 +14,7 @@ TABLE = {
             ('OpyVerif.Proofs.Lemmas.MachineInv', 'Opy', r'inv_(apply|run|init)'),
             ('OpyVerif.Generated.Constants', 'Opy.Gen', r'floatMax_is_sys_max')],
     'C03': [('OpyVerif.Proofs.C03', 'Opy', None),
+            ('OpyVerif.Proofs.C03norm', 'Opy', None), ('OpyVerif.Proofs.C03onlooker', 'Opy', None),
             ('OpyVerif.Generated.Skeletons', 'Opy.Gen', r'skel_\w+_good'),
             ('OpyVerif.Proofs.C18real', 'Opy', r'index_draw_range')],
     'C04': [('OpyVerif.Proofs.C04', 'Opy', r'dump|lookup_appendAttr'),
